@@ -8,6 +8,7 @@
    value carrying given data; lib_supports: documented limits; tdepth; tree_of). *)
 From Coq Require Import List NArith ZArith Lia Bool.
 From Verif Require Import Base.Outcome Wire.Item Gen.Consts Wire.CborFloat Wire.Cbor C10.CborSpec C10.CborConv Wire.CborProofs Wire.CborTime Wire.CborEnc Wire.CborDepth Wire.CborTotal Wire.CborDepthErr.
+From Verif Require Gen.Leaf2 C10.LeafTie.
 Import ListNotations.
 Open Scope N_scope.
 
@@ -235,6 +236,43 @@ Print Assumptions Wcbor_skip_depth_err.
 Theorem C10_half : forall h : N, h < 65536 -> half_to_f32 h = spec_half h.
 Proof. exact half_all. Qed.
 Print Assumptions C10_half.
+
+(* source tie of C10_half (and of the OptimumSize branch of the encoder model): the hand-written
+   half_to_f32 / f32_to_half of Wire/CborFloat.v EQUAL the functions the translator regenerates from the
+   current helper.go halfFloatToFloatBits / floatToHalfFloatBits on every run (Gen/Leaf2.v): all 65536
+   uint16 (the renormalisation loop of the Go code ends within 10 turns: for every fuel >= 11 the
+   translation answers Ok, never OutOfFuel) and all 2^32 uint32.  A behaviour-changing edit of either Go
+   function breaks this obligation. *)
+Theorem C10_half_src_tie :
+  (forall h : N, h < 65536 -> forall fuel : nat, (11 <= fuel)%nat ->
+     Leaf2.halfFloatToFloatBits fuel (Z.of_N h) = Ok (Z.of_N (half_to_f32 h))) /\
+  (forall i : N, i < 4294967296 -> Leaf2.floatToHalfFloatBits (Z.of_N i) = Z.of_N (f32_to_half i)).
+Proof. exact LeafTie.half_src_tie. Qed.
+Print Assumptions C10_half_src_tie.
+
+(* source tie of the big-endian fields of every cbor head / float: be_put 2/4/8 and be_get of
+   Wire/Cbor.v EQUAL the translated bigen.PutUint16/32/64 and bigen.Uint16/32/64 (helper.go) for every
+   uint16 / uint32 / uint64 and every [2]byte / [4]byte / [8]byte *)
+Theorem C10_cbor_bigen_src_tie :
+  (forall v, v < 65536 ->
+     (let '(a, b) := Leaf2.bigenHelper_PutUint16 (Z.of_N v) in [a; b]) = map Z.of_N (be_put 2 v)) /\
+  (forall v, v < 4294967296 -> Leaf2.bigenHelper_PutUint32 (Z.of_N v) = map Z.of_N (be_put 4 v)) /\
+  (forall v, v < 18446744073709551616 -> Leaf2.bigenHelper_PutUint64 (Z.of_N v) = map Z.of_N (be_put 8 v)) /\
+  (forall a b, a < 256 -> b < 256 -> Leaf2.bigenHelper_Uint16 (map Z.of_N [a; b]) = Z.of_N (be_get [a; b])) /\
+  (forall a b c d, a < 256 -> b < 256 -> c < 256 -> d < 256 ->
+     Leaf2.bigenHelper_Uint32 (map Z.of_N [a; b; c; d]) = Z.of_N (be_get [a; b; c; d])) /\
+  (forall a b c d e f g h,
+     a < 256 -> b < 256 -> c < 256 -> d < 256 -> e < 256 -> f < 256 -> g < 256 -> h < 256 ->
+     Leaf2.bigenHelper_Uint64 (map Z.of_N [a; b; c; d; e; f; g; h]) = Z.of_N (be_get [a; b; c; d; e; f; g; h])).
+Proof. exact LeafTie.bigen_src_tie. Qed.
+Print Assumptions C10_cbor_bigen_src_tie.
+
+Example C10_src_tie_nonvacuous :
+  Leaf2.halfFloatToFloatBits 11 15360 = Ok 1065353216%Z /\ Leaf2.halfFloatToFloatBits 11 1 = Ok 864026624%Z /\
+  Leaf2.halfFloatToFloatBits 9 1 = OutOfFuel /\   (* the smallest subnormal needs all 10 turns (and one more call to see the end) *)
+  Leaf2.floatToHalfFloatBits 1065353216 = 15360%Z /\ Leaf2.floatToHalfFloatBits 2139095041 = 31745%Z /\
+  Leaf2.bigenHelper_PutUint32 16909060 = [1; 2; 3; 4]%Z /\ Leaf2.bigenHelper_Uint16 [1; 2]%Z = 258%Z.
+Proof. vm_compute. repeat apply conj; reflexivity. Qed.
 
 (* ---- non-vacuity ---- *)
 Example C10_half_nonvacuous : half_to_f32 15360 = 1065353216 /\ spec_half 1 = 864026624 /\ half_to_f32 64512 = 4286578688.
